@@ -51,7 +51,7 @@ Proof. exact delays_length. Qed.
 
 (* a per-request strategy replaces the client-wide one; None disables retrying *)
 Theorem C09_override : forall client s,
-  effective client (PSome s) = Some s /\ effective client PNone = None /\ effective client PUnset = client.
+  effective client (RSome s) = Some s /\ effective client RNone = None /\ effective client RUnset = client.
 Proof. exact per_request_overrides. Qed.
 Theorem C09_disabled : forall client p jit a rest, effective client p = None ->
   send_with client p jit (a :: rest) = {| r_sends := 1; r_sleeps := []; r_final := Some a |}.
